@@ -147,7 +147,10 @@ static int acquire (const char *k, int want_ok, Obj *o) {
 	else if (!strcmp (k, "ini")) {
 		PIniFile *ini; PList *l; pchar *s;
 		snprintf (path, sizeof path, "%s/%s.ini", tmpdir, want_ok ? "good" : "does_not_exist");
-		if (want_ok) { FILE *f = __real_fopen (path, "w"); fputs ("[s]\nk = v ; c\nl = {1 2}\n", f); __real_fclose (f); }
+		if (want_ok) {      /* file shapes in turn: keys before the first section (ignored by the API), no final newline, an empty section, a repeated section */
+			static const char *SHAPES[] = { "[s]\nk = v ; c\nl = {1 2}\n", "stray = 1\nother = {a b}\n[s]\nk = v ; c\nl = {1 2}\n", "[s]\nk = v ; c\nl = {1 2}",
+							"[empty]\n[s]\nk = v\nl = {1 2}\n[s]\nk = w\n", "only = keys\nno = section\n" };
+			FILE *f = __real_fopen (path, "w"); fputs (SHAPES[uniq % 5], f); __real_fclose (f); }
 		ini = p_ini_file_new (path); ok = p_ini_file_parse (ini, &err);
 		if (ok) { l = p_ini_file_sections (ini); p_list_foreach (l, (PFunc) p_free, NULL); p_list_free (l); s = p_ini_file_parameter_string (ini, "s", "k", NULL); p_free (s); l = p_ini_file_parameter_list (ini, "s", "l"); p_list_foreach (l, (PFunc) p_free, NULL); p_list_free (l); o->a = ini; }
 		else p_ini_file_free (ini);
